@@ -130,6 +130,9 @@ def run(run, binfo):
                            'user_id': rng.choice(['u1', 'zz']), 'project_id': rng.choice(['p1', 'p2']),
                            'nested': {'a': {'b': rng.choice(['u1', 'u2'])}, 'after': rng.choice(['u1', 'u2'])},
                            'last': 'u1'}
+        elif rng.random() < 0.25:
+            # a target file that is given but flattens to nothing is still THE target (not the caller's own ids)
+            target_json = rng.choice([{}, {'target': {}}, {'a': {}, 'b': {'c': {}}}, {'custom': {'deep': {}}}])
         pp = os.path.join(wd, 'pol.json')
         ap = os.path.join(wd, 'tok.json')
         tp = os.path.join(wd, 'tgt.json') if target_json is not None else None
